@@ -62,7 +62,7 @@ func deleteIfNotModifiedRule(o *Ob) {
 
 func init() {
 	propInfos["C05"] = &propInfo{
-		Explanation: "Decides the resolution path's structure: (1) flush works on copies, treats an alert as resolved iff its end time has passed at the flush's clock, clears the end time of firing copies, sends the whole group, and removes resolved alerts (and destroys the group) only after the pipeline reported success; (2) the store removes an alert only if it is unmodified since the flush read it (same UpdatedAt), so a re-fire during delivery survives; (3) with send_resolved off RetryStage never notifies a resolved alert and reports success without notifying when nothing fires; with send_resolved on it sends the whole batch; (4) the de-duplication table notifies once when everything resolved / a new alert resolved and partitions alerts by Resolved(); (5) pipeline errors of any integration propagate to the flush so a failed resolved-notification is retried.",
+		Explanation: "Decides the resolution path's structure: (1) flush works on copies, treats an alert as resolved iff its end time has passed at the flush's clock, clears the end time of firing copies, sends the whole group, and removes resolved alerts (and destroys the group) only after the pipeline reported success; (2) the store removes an alert only if it is unmodified since the flush read it (same UpdatedAt), so a re-fire during delivery survives; (3) with send_resolved off RetryStage never notifies a resolved alert and reports success without notifying when nothing fires; with send_resolved on it sends the whole batch; (4) the de-duplication table notifies once when everything resolved / a new alert resolved and partitions alerts by Resolved(); (5) pipeline errors of any integration propagate to the flush so a failed resolved-notification is retried; the store (and group) is declared destroyed only when it is empty after the deletions.",
 		NotDecided:  "'never reported resolved early' rests on model.Alert.ResolvedAt (library); timing of the next flush.",
 	}
 	reg("C05", "C05.1", "T1,T8", "flush: copies; resolved iff ResolvedAt(now); EndsAt cleared on firing copies; whole group sent; resolved removed only after success", func(o *Ob) {
